@@ -272,12 +272,36 @@ def gen_func(rng, max_blocks=4, sig=None, genv=()):
             b["term"] = {"row": 83 if rt == "v" else 84, "ty": ct, "res": None if rt == "v" else aux_ident(), "has": rt != "v"}
         elif k < 0.2:
             b["term"] = {"row": 86, "ty": aux.choice(LP_TYS), "res": None, "has": False}
+    # exception-handling pads and terminators of the funclet kind (rows 92-96) and indirectbr (row 91): a group of a catchswitch, a catchpad within it,
+    # a catchret from that catchpad, a cleanuppad (within none / the catchswitch's catchpad) and a cleanupret from it; each terminator takes a block
+    # that has none planned yet (llir checks the KIND of the definition a pad reference names, not where it is)
+    if aux.random() < 0.18:
+        free = [b for b in blocks if "term" not in b]
+        aux.shuffle(free)
+        cs = cp = cl = None
+        if free:
+            cs = {"row": 92, "ty": "tok", "res": aux_ident(), "has": True, "aux": True, "pad": None}
+            free.pop()["term"] = cs
+        if cs is not None:
+            cp = {"row": 95, "ty": "tok", "res": aux_ident(), "has": True, "aux": True, "within": cs, "eargs": [aux.choice(["i32", "p0(i8)", "i64"]) for _ in range(aux.choice([0, 1, 2]))]}
+            aux.choice(blocks)["insts"].insert(0, cp)
+            if free and aux.random() < 0.8:
+                free.pop()["term"] = {"row": 93, "ty": "v", "res": None, "has": False, "from": cp}
+        if aux.random() < 0.7:
+            cl = {"row": 96, "ty": "tok", "res": aux_ident(), "has": True, "aux": True, "pad": aux.choice([None, None, cp, cs]), "eargs": [aux.choice(["i32", "p0(i8)"]) for _ in range(aux.choice([0, 0, 1]))]}
+            aux.choice(blocks)["insts"].insert(0, cl)
+            if free and aux.random() < 0.8:
+                free.pop()["term"] = {"row": 94, "ty": "v", "res": None, "has": False, "from": cl}
+    for b in blocks:
+        if "term" not in b and aux.random() < 0.05:
+            b["term"] = {"row": 91, "ty": "p0(i8)", "res": None, "has": False}
     # result types
     def res_ty(i):
         r, t = i["row"], i["ty"]
         if r in (84,): return fptr_sig(t)[0]
         if r == 85: return t
         if r == 87: return i["to"]
+        if r in (92, 95, 96): return "tok"
         if r == 89: return "s(%s,i1)" % t
         if r == 90: return t
         if r < 13: return t
@@ -323,7 +347,7 @@ def gen_func(rng, max_blocks=4, sig=None, genv=()):
         for i in b["insts"] + ([b["term"]] if "term" in b else []):
             if i["has"]:
                 i["ident"] = ident_of(i["res"])
-                (avail_aux if i.get("aux") or i["row"] in (84,) else avail).append((i["ident"], res_ty(i)))
+                (avail_aux if i.get("aux") or i["row"] in (84, 92) else avail).append((i["ident"], res_ty(i)))
                 if i["row"] == 73:
                     lazy.add(i["ident"])
             else:
@@ -369,6 +393,12 @@ def gen_func(rng, max_blocks=4, sig=None, genv=()):
                 continue
             if r == 88:
                 parts.append("_:88:W%d" % i["ord"])
+                continue
+            if r == 95:
+                parts.append("%s:95:X%s!G%s" % (i["ident"], i["within"]["ident"], "&".join("%s=%s" % (et, aux_operand(et)) for et in i["eargs"])))
+                continue
+            if r == 96:
+                parts.append("%s:96:Y%s!G%s" % (i["ident"], i["pad"]["ident"] if i["pad"] else "", "&".join("%s=%s" % (et, aux_operand(et)) for et in i["eargs"])))
                 continue
             if r == 89:
                 parts.append("%s:89:F%s!Pp0(%s)=%s!P%s=%s!P%s=%s!W%d!W%d!A%s" % (i["ident"], i["fl"], t, aux_operand("p0(%s)" % t), t, aux_operand(t), t, aux_operand(t),
@@ -465,6 +495,15 @@ def gen_func(rng, max_blocks=4, sig=None, genv=()):
         tm = b.get("term")
         if tm is not None and tm["row"] == 86:
             parts[-1] = "_:86:P%s=%s" % (tm["ty"], aux_operand(tm["ty"]))
+        elif tm is not None and tm["row"] == 91:
+            parts[-1] = "_:91:P%s=%s!B%s" % (tm["ty"], aux_operand(tm["ty"]), ",".join(aux.choice(labels) for _ in range(aux.choice([0, 1, 2, 3]))))
+        elif tm is not None and tm["row"] == 92:
+            parts[-1] = "%s:92:Y%s!B%s!U%s" % (tm["ident"], tm["pad"]["ident"] if tm["pad"] else "", ",".join(aux.choice(labels) for _ in range(aux.choice([1, 1, 2, 3]))),
+                                              aux.choice(["", "", aux.choice(labels)]))
+        elif tm is not None and tm["row"] == 93:
+            parts[-1] = "_:93:X%s!L%s" % (tm["from"]["ident"], aux.choice(labels))
+        elif tm is not None and tm["row"] == 94:
+            parts[-1] = "_:94:X%s!U%s" % (tm["from"]["ident"], aux.choice(["", aux.choice(labels)]))
         elif tm is not None:
             rt, pts = fptr_sig(tm["ty"])
             cands = ["@" + a for a, ty in genv if ty == tm["ty"]] + ["%" + a for a, ty in avail + avail_aux if ty == tm["ty"] and a not in lazy]
@@ -593,6 +632,31 @@ def mutants(rng, text):
         k = aux.choice(rmws)
         out.append(("rmw-op-dropped", with_line(k, re.sub(rb"atomicrmw (volatile )?\w+ ", rb"atomicrmw \1", lines[k], count=1))))
         out.append(("rmw-op-unknown", with_line(k, re.sub(rb"atomicrmw (volatile )?\w+ ", rb"atomicrmw \1mul ", lines[k], count=1))))
+    # funclet pads: kind of the definition a pad reference names, label lists, unwind targets
+    withins = [(k, m) for k in body for m in re.finditer(rb'(?:within|from) (%(?:"[^"]*"|[-a-zA-Z$._0-9]+))', lines[k])]
+    valdefs = [m.group(1) for k, m in defs if not re.search(rb"= (catchswitch|catchpad|cleanuppad) ", lines[k])]
+    if withins:
+        k, m = aux.choice(withins)
+        out.append(("pad-undefined", with_line(k, lines[k][:m.start(1)] + b"%undefined.x" + lines[k][m.end(1):])))
+        out.append(("pad-none", with_line(k, lines[k][:m.start(1)] + b"none" + lines[k][m.end(1):])))
+        if valdefs:
+            out.append(("pad-other-kind", with_line(k, lines[k][:m.start(1)] + aux.choice(valdefs) + lines[k][m.end(1):])))
+        others = [m2.group(1) for _, m2 in withins if m2.group(1) != m.group(1)]
+        if others:
+            out.append(("pad-other-pad", with_line(k, lines[k][:m.start(1)] + aux.choice(others) + lines[k][m.end(1):])))
+    lablists = [k for k in body if re.search(rb"(indirectbr|catchswitch) .*\[", lines[k])]
+    if lablists:
+        k = aux.choice(lablists)
+        out.append(("lablist-unclosed", with_line(k, lines[k].replace(b"]", b"", 1))))
+        out.append(("lablist-trailing-comma", with_line(k, lines[k].replace(b"]", b", ]", 1))))
+        out.append(("lablist-undefined-label", with_line(k, lines[k].replace(b"]", b", label %undefined.x]" if b"[label" in lines[k] else b"label %undefined.x]", 1))))
+        out.append(("lablist-not-label", with_line(k, lines[k].replace(b"[label ", b"[i32 ", 1))))
+    unw = [k for k in body if b" unwind " in lines[k] and not lines[k].startswith(b"\t\t")]
+    if unw:
+        k = aux.choice(unw)
+        out.append(("unwind-dropped", with_line(k, lines[k].split(b" unwind ")[0])))
+        out.append(("unwind-swapped", with_line(k, lines[k].split(b" unwind ")[0] + (b" unwind label %undefined.x" if lines[k].endswith(b"to caller") else b" unwind to caller"))))
+        out.append(("unwind-misspelt", with_line(k, lines[k].split(b" unwind ")[0] + b" unwind to callee")))
     pads = [k for k in body if b"= landingpad " in lines[k]]
     if pads:
         k = aux.choice(pads)
